@@ -299,7 +299,7 @@ func (c Case) writeNodes(sb *strings.Builder, ns []Node, ind int) {
 			c.writeNodes(sb, n.Kids, ind+1)
 			fmt.Fprintf(sb, "%s</template>\n", pad)
 		case KSlot:
-			fmt.Fprintf(sb, "%s<slot", pad)
+			fmt.Fprintf(sb, "%s<slot%s", pad, directives(n))
 			if n.Name != "" {
 				fmt.Fprintf(sb, ` name="%s"`, n.Name)
 			}
